@@ -94,6 +94,15 @@ impl BRC20Precompiles {
     }
 }
 
+#[cfg(feature = "verif")]
+impl BRC20Precompiles {
+    /// Verification hook: is the current-txid helper in the dispatch table?
+    pub fn verif_txid_registered(&self) -> bool {
+        self.custom_precompiles
+            .contains_key(&*GET_OP_RETURN_TX_ID_PRECOMPILE_ADDRESS)
+    }
+}
+
 impl<CTX: ContextTr> PrecompileProvider<CTX> for BRC20Precompiles {
     type Output = InterpreterResult;
 
